@@ -431,6 +431,13 @@ func TestCheck(t *testing.T) {
 			record(r, c, kind, detail)
 			return
 		}
+		if len(c.List) == 1 && strings.HasPrefix(c.List[0], "realsocket:") {
+			kind, detail := executeRealSocket(c.List[0])
+			if kind != "slow" && kind != "setup" {
+				record(r, c, kind, detail)
+			}
+			return
+		}
 		if len(c.List) == 1 && strings.HasPrefix(c.List[0], "forward:") {
 			kind, detail := executeForward(c.List[0])
 			record(r, c, kind, detail)
@@ -461,5 +468,6 @@ func TestCheck(t *testing.T) {
 	}
 	forwardCases(r, len(all))
 	realDnsCases(r, len(all)+10)
+	realSocketCases(r, len(all)+20)
 	r.Note("cases_total", len(all))
 }
